@@ -70,6 +70,10 @@ CLAIMED = {
           "Generated-input search: no animation, only allowed styles / initial values, regions exactly at the safe area, merged regions and redirected references, registered region objects, text timeline unchanged for documents without hiding styles, configured colour / background / alignment as computed by the reference interpreter, second application is a no-op, filter does not fail (positioned regions, no body).",
           "Trusted: vt/ref_isd.py for timelines and computed styles. Known finding: conflicting nested region references become visible when regions merge (excluded by construction in the main parts).",
           "DESIGN.md C16"),
+  "C08": ("Hypothesis caption scripts from the pop-on / roll-up / paint-on protocol grammars rendered to SCC, compared frame by frame with an independent CEA-608 cell-grid decoder; timing windows with integer drop-frame arithmetic",
+          "Generated-input search: rows, row text, row numbers, per-character colour class / italics / underline outside transition windows; begin/end exact frame multiples (30 NDF / 30000/1001 DF), never before the line's time code and within the transmission window of the triggering word; channel-2 and field-2 data ignored.",
+          "Trusted: vt/ref_608_decoder.py (self-tested on hand-computed scenarios) and vt/ref_608.py tables (verified exhaustively by C17). Grammar productions no encoder emits are labelled classes with some attributes unasserted (see ASSUMPTIONS).",
+          "DESIGN.md C08"),
 }
 NOT_APPLICABLE = {}
 
